@@ -722,3 +722,299 @@ def compare(expect, observed, poll_row_):
     if observed["npol"] != (3 if changed else 0):
         d.append("policy updates spec=%d impl=%d" % (3 if changed else 0, observed["npol"]))
     return d
+
+
+# ---------------------------------------------------------------------------------------------------------------
+# C08: processes under strace, kill points, translation of system-call logs to events of spec/trace/KeyKeeperTraceFs
+
+QUICK_SET = ["openat", "creat", "write", "writev", "pwrite64", "rename", "renameat", "renameat2", "fsync", "fdatasync",
+             "connect", "socket", "sendto", "sendmsg", "recvfrom", "recvmsg", "read", "close", "shutdown", "mkdir",
+             "chmod", "fchmod", "chown", "unlink", "unlinkat"]
+
+_LINE = re.compile(r"^(\d+)\s+(\w+)\((.*)\)\s+= (-?\d+|\?)(.*)$")
+_UNFIN = re.compile(r"^(\d+)\s+(\w+)\((.*) <unfinished \.\.\.>$")
+_RESUM = re.compile(r"^(\d+)\s+<\.\.\. (\w+) resumed>(.*)\)\s+= (-?\d+|\?)(.*)$")
+_STR = re.compile(r'"((?:[^"\\]|\\.)*)"')
+
+
+def parse_strace(path, keys_dir):
+    """-> (entries, killed).  entry: {i, pid, name, args, ret, ord (per pid+name ordinal, as strace's when= counts),
+    obj: what the call is about ('key:<file>', 'keysdir', 'host', 'other'), strs: quoted string arguments}"""
+    entries, pending, ords, fdmap = [], {}, {}, {}
+    killed = False
+    try:
+        lines = open(path, errors="replace").read().splitlines()
+    except OSError:
+        return [], False
+    for ln in lines:
+        if "+++ killed by SIGKILL +++" in ln:
+            killed = True
+            continue
+        m = _UNFIN.match(ln)
+        if m:
+            pending[(m.group(1), m.group(2))] = m.group(3)
+            continue
+        m = _RESUM.match(ln)
+        if m:
+            pid, name, rest, ret = m.group(1), m.group(2), m.group(3), m.group(4)
+            args = pending.pop((pid, name), "") + rest
+        else:
+            m = _LINE.match(ln)
+            if not m:
+                continue
+            pid, name, args, ret = m.group(1), m.group(2), m.group(3), m.group(4)
+        k = (pid, name)
+        ords[k] = ords.get(k, 0) + 1
+        strs = [s for s in _STR.findall(args)]
+        e = {"i": len(entries), "pid": pid, "name": name, "args": args, "ret": ret, "ord": ords[k], "strs": strs, "obj": "other"}
+        r = None if ret == "?" else int(ret)
+        fd0 = None
+        m0 = re.match(r"^(\d+)[,)]?", args)
+        if m0:
+            fd0 = (pid, int(m0.group(1)))
+        paths = [s for s in strs if s.startswith(keys_dir)]
+        if name in ("openat", "creat", "open"):
+            p = next((s for s in strs if s.startswith("/")), None)
+            if p and p.startswith(keys_dir):
+                e["obj"] = "key:" + os.path.basename(p) if p != keys_dir else "keysdir"
+                e["flags"] = args
+                if r is not None and r >= 0:
+                    fdmap[(pid, r)] = e["obj"]
+            elif r is not None and r >= 0:
+                fdmap[(pid, r)] = "other"
+        elif name == "socket":
+            if r is not None and r >= 0:
+                fdmap[(pid, r)] = "sock"
+            e["obj"] = "host"
+        elif name == "connect":
+            if "168.63.129.16" in args and fd0:
+                fdmap[fd0] = "host"
+                e["obj"] = "host"
+        elif name in ("rename", "renameat", "renameat2", "mkdir", "chmod", "chown", "unlink", "unlinkat", "statx", "newfstatat", "access", "stat", "lstat"):
+            if paths:
+                e["obj"] = "keysdir" if all(p == keys_dir for p in paths) else "key:" + os.path.basename(paths[-1])
+                if name.startswith("rename") and len(paths) == 2:
+                    e["from"], e["to"] = os.path.basename(paths[0]), os.path.basename(paths[1])
+        elif fd0 is not None and fd0 in fdmap:
+            o = fdmap[fd0]
+            e["obj"] = "host" if o in ("host", "sock") and name in ("writev", "sendto", "sendmsg", "recvfrom", "recvmsg", "shutdown", "close", "read", "write", "getsockopt") else o
+            if o == "sock":
+                e["obj"] = "host"
+            if name == "close":
+                fdmap.pop(fd0, None)
+        entries.append(e)
+    return entries, killed
+
+
+def relevant(e):
+    return e["obj"] == "host" or e["obj"] == "keysdir" or e["obj"].startswith("key:")
+
+
+def kill_points(entries, inject_set, every_tmp_write=6, all_points=False):
+    """kill points of one baseline run from the first call on the key directory on: before every call that touches
+    the key directory / a key file / the host socket and before the first other call after each of them (every call in
+    `inject_set` when all_points).  A point is (syscall name, its ordinal) -- what strace's when= counts."""
+    start = next((e["i"] for e in entries if relevant(e)), None)
+    if start is None:
+        return []
+    pts, prev_rel, nw = [], False, 0
+    for e in entries[start:]:
+        if e["name"] not in inject_set:
+            continue
+        rel = relevant(e)
+        take = all_points or rel or prev_rel
+        if rel and not all_points and e["name"] in ("write", "writev") and e["obj"].endswith(".tmp"):
+            nw += 1
+            take = (nw % every_tmp_write == 1)
+        if take:
+            pts.append((e["name"], e["ord"], "%s %s" % (e["name"], e["obj"])))
+        prev_rel = rel
+    return pts
+
+
+def translate(entries, keys_dir):
+    """system calls of one process -> rows for KeyKeeperTraceFs (consecutive equal rows merged)"""
+    rows = []
+
+    def emit(r):
+        if not rows or rows[-1] != r:
+            rows.append(r)
+    for e in entries:
+        if e["ret"] == "?":
+            continue                  # the call the process was killed before
+        ok = int(e["ret"]) >= 0
+        o, name = e["obj"], e["name"]
+        if o.startswith("key:"):
+            base, _, ext = o[4:].rpartition(".")
+            g = GUID_REV.get(base, "?" + base)
+            if name in ("openat", "creat", "open") and ok:
+                wr = name == "creat" or "O_WRONLY" in e["args"] or "O_RDWR" in e["args"] or "O_CREAT" in e["args"]
+                if ext == "tmp" and wr:
+                    emit({"e": "fs", "op": "create_tmp", "g": g})
+                elif ext == "key":
+                    emit({"e": "fs", "op": "create_final" if wr else "open_final", "g": g})
+            elif name in ("write", "writev", "pwrite64") and ok:
+                emit({"e": "fs", "op": "write_tmp" if ext == "tmp" else "write_final", "g": g})
+            elif name in ("read", "pread64", "readv") and ok and ext == "key" and int(e["ret"]) > 0:
+                emit({"e": "fs", "op": "read_final", "g": g})
+            elif name == "close" and ext == "tmp":
+                emit({"e": "fs", "op": "close_tmp", "g": g})
+            elif name.startswith("rename") and ok and e.get("to", "").endswith(".key"):
+                emit({"e": "fs", "op": "rename", "g": g})
+        elif o == "host" and name in ("writev", "sendto", "sendmsg", "write") and ok:
+            s = e["strs"][0] if e["strs"] else ""
+            if s.startswith("GET /secure-channel/status"):
+                emit({"e": "net", "op": "status", "g": "none"})
+            elif s.startswith("POST /secure-channel/key HTTP") or s.startswith("POST /secure-channel/key "):
+                emit({"e": "net", "op": "acquire", "g": "none"})
+            elif s.startswith("POST /secure-channel/key/"):
+                guid = s[len("POST /secure-channel/key/"):].split("/")[0]
+                emit({"e": "net", "op": "attest", "g": GUID_REV.get(guid, "?" + guid)})
+            elif s.startswith("GET /verif/signed"):
+                emit({"e": "net", "op": "signed", "g": "none"})
+    return rows
+
+
+def read_keys_dir(keys_dir):
+    files = []
+    if os.path.isdir(keys_dir):
+        for n in sorted(os.listdir(keys_dir)):
+            try:
+                b = open(os.path.join(keys_dir, n), "rb").read()
+                files.append({"name": n, "size": len(b), "content": b[:4096].decode("utf-8", "replace")})
+            except OSError:
+                files.append({"name": n, "size": -1, "content": ""})
+    return abs_dir({"files": files})
+
+
+C08_SCENARIOS = {
+    # name: (init scenario, named for 'rotated', queue of guids the host hands out)
+    "fresh": ("fresh", None, ["g1", "g2", "g3", "g4"]),
+    "restart-with-key": ("haskey", None, ["g2", "g3", "g4"]),
+    "rotation": ("rotated", FOREIGN, ["g2", "g3", "g4"]),
+    "rotation-unnamed": ("rotated", "none", ["g2", "g3", "g4"]),
+    "unreadable-local-key": ("unreadable", None, ["g2", "g3", "g4"]),
+}
+C08_PLANS = {
+    "none": {},
+    "status-fail": {"status": [{"a": "http", "status": 503}]},
+    "status-invalid": {"status": [{"a": "raw200", "body": "{\"version\": \"1.0\"}"}]},
+    "status-reset": {"status": [{"a": "reset"}]},
+    "acquire-err": {"acquire": [{"a": "http", "status": 500}]},
+    "acquire-malformed": {"acquire": [{"a": "raw200", "body": "{\"guid\": \"x\"}"}]},
+    "attest-err": {"attest": [{"a": "http", "status": 403}]},
+    "attest-lost": {"attest": [{"a": "lost"}]},
+    "attest-reset": {"attest": [{"a": "reset"}]},
+}
+
+
+class Sweeper:
+    """one rig (namespace + host); runs agent processes under strace on scenario/plan/kill point"""
+
+    def __init__(self, name, bindir, all_syscalls=False):
+        self.rg = Rig(name, bindir, serve=False, interval_ms=5, loggers=True)
+        self.all = all_syscalls
+        self.n = 0
+
+    def close(self, keep=False):
+        self.rg.close(keep=keep)
+
+    def _prepare(self, scenario, plan):
+        sc, named, queue = C08_SCENARIOS[scenario]
+        init = init_row(adoc("1.0", "wireserver"), sc, named=named)
+        rg = self.rg
+        rg.host.call(op="reset")
+        rg.reset_keys(_files_for(init), absent=(init["dir"] == "absent"))
+        shutil.rmtree(rg.logs, ignore_errors=True)
+        os.makedirs(rg.logs, exist_ok=True)
+        rg.host.call(op="set", hold=False, doc=concrete_doc(init["doc"]), keys={G(a): K(a) for a in init["issued"]},
+                     named=None if init["named"] == "none" else G(init["named"]),
+                     latched=None if init["latched"] == "none" else G(init["latched"]),
+                     issue_queue=[{"guid": G(a), "key": K(a)} for a in queue], plans=C08_PLANS[plan])
+        return init
+
+    def _spawn(self, tag, inject=None):
+        rg = self.rg
+        self.n += 1
+        log = os.path.join(rg.dir, "st_%s.log" % tag)
+        try:
+            os.unlink(log)
+        except FileNotFoundError:
+            pass
+        argv = ["strace", "-f", "-s", "200", "-o", log, "-e", "trace=all" if self.all else "trace=file,network,desc"]
+        if inject:
+            argv += ["-e", "inject=%s:signal=KILL:when=%d" % inject]
+        argv.append(rg.exe)
+        out = os.path.join(rg.dir, "once_%s.out" % tag)
+        open(out, "w").close()
+        r = rg.host.call(op="run", argv=argv, cwd=rg.dir, timeout=25, _to=40, stdout=out, stderr=os.path.join(rg.dir, "once.err"),
+                         env=rg.agent_env("once", {"VERIF_KK_AUTONOTIFY": "1", "VERIF_KK_ONCE_TIMEOUT_MS": "6000"}))
+        entries, killed = parse_strace(log, rg.keys)
+        res = {}
+        for ln in open(out, errors="replace").read().splitlines():
+            if ln.startswith("{"):
+                try:
+                    res = json.loads(ln)
+                except ValueError:
+                    pass
+        return {"rc": r.get("rc"), "timeout": r.get("timeout", False), "entries": entries, "killed": killed, "result": res}
+
+    def _observe(self, damaged):
+        final, tmp, stray = read_keys_dir(self.rg.keys)
+        hs = self.rg.host.call(op="state")
+        lat = "none" if hs["latched"] is None else GUID_REV.get(hs["latched"], "?")
+        return {"final": final, "tmp": tmp, "latched": lat, "damaged": sorted(damaged), "stray": stray}
+
+    def baseline(self, scenario, plan):
+        """an undisturbed run of the scenario -> its kill points"""
+        self._prepare(scenario, plan)
+        r = self._spawn("base")
+        if r["rc"] != 0:
+            raise util.ToolError("baseline run of %s/%s failed rc=%s %s: %s" % (scenario, plan, r["rc"], r["result"], self.rg.agent_err()[-400:]))
+        inj = sorted({e["name"] for e in r["entries"]}) if self.all else QUICK_SET
+        return kill_points(r["entries"], set(inj), all_points=self.all), len(r["entries"])
+
+    def case(self, case_id, scenario, plan, point):
+        """first process (killed before `point`, or undisturbed when point is None), then a fresh process on the same
+        directory and host -> (rows for KeyKeeperTraceFs, summary)"""
+        init = self._prepare(scenario, plan)
+        damaged = set(init["damaged"])
+        rg = self.rg
+        rows = [{"e": "case", "id": case_id}, {"e": "spawn"}]
+        r1 = self._spawn("first", inject=(point[0], point[1]) if point else None)
+        if r1["timeout"] or (r1["rc"] not in (0, -9) and not r1["killed"]):
+            raise util.ToolError("case %s: first process ended rc=%s %s %s" % (case_id, r1["rc"], r1["result"], rg.agent_err()[-300:]))
+        rows += translate(r1["entries"], rg.keys)
+        o1 = self._observe(damaged)
+        hl1 = rg.host.call(op="log")["log"]
+        base = {"restart": False, "latched0": "none", "good0": False, "acquires": sum(1 for x in hl1 if x["kind"] == "acquire"),
+                "signedGuid": "none", "signedOk": False}
+        rows.append(dict({"e": "exit", "killed": bool(r1["killed"])}, **{k: o1[k] for k in ("final", "tmp", "latched", "damaged")}, **base))
+        killed_at = None
+        if r1["killed"]:
+            last = next((e for e in reversed(r1["entries"]) if e["ret"] == "?"), None)
+            killed_at = "%s %s" % (last["name"], last["obj"]) if last else "?"
+        # restart: no more host faults, a fresh process
+        rg.host.call(op="set", plans={})
+        seq0 = rg.host.call(op="state")["seq"]
+        lat0 = o1["latched"]
+        good0 = lat0 in o1["final"] and o1["final"][lat0] == "key" and lat0 not in damaged
+        rows.append({"e": "spawn"})
+        r2 = self._spawn("restart")
+        rows += translate(r2["entries"], rg.keys)
+        o2 = self._observe(damaged)
+        hl2 = [x for x in rg.host.call(op="log")["log"] if x["seq"] > seq0]
+        signed = [x for x in hl2 if x["kind"] == "signed"]
+        sg = signed[-1] if signed else {}
+        rows.append(dict({"e": "exit", "killed": False, "restart": True, "latched0": lat0, "good0": bool(good0),
+                          "acquires": sum(1 for x in hl2 if x["kind"] == "acquire"),
+                          "signedGuid": GUID_REV.get(sg.get("mac_guid"), "none") if sg else "none",
+                          "signedOk": bool(sg.get("accepted")) and r2["rc"] == 0},
+                         **{k: o2[k] for k in ("final", "tmp", "latched", "damaged")}))
+        rows.append({"e": "end"})
+        summary = {"case": case_id, "scenario": scenario, "plan": plan, "point": list(point) if point else None,
+                   "killed": bool(r1["killed"]), "killed_before": killed_at, "latched_at_kill": lat0, "good_local": bool(good0),
+                   "restart_rc": r2["rc"], "restart_result": r2["result"].get("result"), "restart_acquires": rows[-2]["acquires"],
+                   "final_after_kill": o1["final"], "tmp_after_kill": o1["tmp"],
+                   "host_requests_first": [x["kind"] for x in hl1], "host_requests_restart": [x["kind"] for x in hl2]}
+        return rows, summary
